@@ -122,6 +122,12 @@ pub fn merkle_path_inner(rows: usize, bits_pattern: u64, packing: TablePacking, 
 // ---------------------------------------------------------------------------------------------
 /// Returns Ok(()) iff the honest execution proves and verifies.
 pub fn pattern_program(pattern: &[(bool, bool)], min_height: usize) -> Result<(), String> {
+    pattern_program_dup(pattern, min_height, false)
+}
+
+/// `dup`: every chain hashes the SAME leaf and siblings, and the digests of all chains are connected to ONE pair of public
+/// inputs: the exposed outputs of the later chains are duplicate creators of a slot (`dup_npo_outputs`: readers on the bus).
+pub fn pattern_program_dup(pattern: &[(bool, bool)], min_height: usize, dup: bool) -> Result<(), String> {
     let perm = default_koalabear_poseidon2_16();
     let rows = pattern.len();
     let packing = TablePacking::new(1, 1).with_min_trace_height(min_height);
@@ -133,12 +139,14 @@ pub fn pattern_program(pattern: &[(bool, bool)], min_height: usize) -> Result<()
     let mut private: Vec<(p3_circuit::NonPrimitiveOpId, [E4; 2])> = Vec::new();
     let mut state = [KB::ZERO; 16];
     let mut acc = 0u64;
+    let mut shared_out: [Option<ExprId>; 2] = [None, None];
     for (i, &(mf, ns)) in pattern.iter().enumerate() {
         let chain_last = i + 1 == rows || pattern[i + 1].1;
-        let sib = [limb(9 + 8 * i as u64), limb(13 + 8 * i as u64)];
-        let bit = !ns && bit_of(i);
+        let k = if dup { 0 } else { i as u64 };
+        let sib = [limb(9 + 8 * k), limb(13 + 8 * k)];
+        let bit = !ns && bit_of(if dup { 1 } else { i });
         if ns {
-            let leaf = [limb(1 + i as u64), limb(5 + i as u64)];
+            let leaf = [limb(1 + k), limb(5 + k)];
             state = flat(&[leaf[0], leaf[1], sib[0], sib[1]]).try_into().unwrap();
             state = perm.permute(state);
             acc = 0;
@@ -163,7 +171,7 @@ pub fn pattern_program(pattern: &[(bool, bool)], min_height: usize) -> Result<()
         };
         let bit_e = b.alloc_const(if bit { E4::ONE } else { E4::ZERO }, "mmcs_bit");
         let inputs: Vec<Option<ExprId>> = if ns {
-            let leaf = [limb(1 + i as u64), limb(5 + i as u64)];
+            let leaf = [limb(1 + k), limb(5 + k)];
             [leaf[0], leaf[1], sib[0], sib[1]].iter().map(|&v| Some(b.alloc_const(v, "row_in"))).collect()
         } else {
             vec![None; 4]
@@ -178,8 +186,15 @@ pub fn pattern_program(pattern: &[(bool, bool)], min_height: usize) -> Result<()
         if chain_last {
             let d = [E4::from_basis_coefficients_slice(&state[..4]).unwrap(), E4::from_basis_coefficients_slice(&state[4..8]).unwrap()];
             for (k, dv) in d.iter().enumerate() {
-                let p = b.public_input();
-                pubs.push(*dv);
+                let p = match (dup, shared_out[k]) {
+                    (true, Some(p)) => p,
+                    _ => {
+                        let p = b.public_input();
+                        pubs.push(*dv);
+                        shared_out[k] = Some(p);
+                        p
+                    }
+                };
                 b.connect(outs[k].ok_or("no output")?, p);
             }
         }
@@ -240,6 +255,12 @@ pub fn cmd_pattern(args: &[String]) -> i32 {
     v.sort_by_key(|x| x.0);
     for (_, o) in v {
         println!("{o}");
+    }
+    // duplicate non-primitive outputs: identical chains whose digests are tied to one pair of public inputs
+    for (pattern, mh) in [(vec![(false, true), (false, true)], 1usize), (vec![(false, true), (false, false), (false, true), (false, false)], 1), (vec![(false, true), (false, true), (false, true)], 8)] {
+        let r = catch_unwind(AssertUnwindSafe(|| pattern_program_dup(&pattern, mh, true))).unwrap_or_else(|_| Err("panic while building".into()));
+        println!("{}", json!({"case": {"rows": pattern.iter().map(|p| json!({"mf": p.0, "ns": p.1})).collect::<Vec<_>>(), "min_height": mh, "dup": true},
+            "shape": format!("duplicate-npo-outputs+chains{}", pattern.iter().filter(|p| p.1).count()), "accepted": r.is_ok(), "msg": r.err().map(|e| e.chars().take(200).collect::<String>())}));
     }
     0
 }
